@@ -146,19 +146,75 @@ func C16(p *core.Prog, rep *core.Report) {
 
 	// the not-held edge returns the directory-in-use error; the lock object is stored in the returned DB
 	inUse, stored := false, false
+	// the acquisition may live in an unexported helper of the package that Open calls (`lockDir(dir) (*flock.Flock, error)`)
+	lockFns := []*ssa.Function{open}
+	for _, b := range core.ReachableBlocks(open) {
+		for _, in := range b.Instrs {
+			if c, ok := in.(*ssa.Call); ok {
+				h := c.Common().StaticCallee()
+				if h == nil || h == open || !inRootPkg(h) || token.IsExported(h.Name()) || h.Blocks == nil {
+					continue
+				}
+				tries := false
+				for _, hb := range h.Blocks {
+					for _, hin := range hb.Instrs {
+						if hc, ok := hin.(*ssa.Call); ok && core.StaticCalleeIs(hc.Common(), flockTry) {
+							tries = true
+						}
+					}
+				}
+				if tries {
+					lockFns = append(lockFns, h)
+				}
+			}
+		}
+	}
+	fromFlockNew := func(o ssa.Value) bool {
+		call, ok := o.(*ssa.Call)
+		return ok && core.StaticCalleeIs(call.Common(), flockNew)
+	}
+	helperReturnsNew := func(h *ssa.Function) bool {
+		n := 0
+		for _, r := range core.Returns(h) {
+			v := core.ReturnOperand(r, 0)
+			if core.IsNilConst(v) {
+				continue
+			}
+			n++
+			if !core.AllOrigins(v, fromFlockNew) {
+				return false
+			}
+		}
+		return n > 0
+	}
 	for _, b := range core.ReachableBlocks(open) {
 		for _, in := range b.Instrs {
 			if f, _, val := core.StoreField(in); f == p.R.DBFileLock {
 				if core.AllOrigins(val, func(o ssa.Value) bool {
-					call, ok := o.(*ssa.Call)
-					return ok && core.StaticCalleeIs(call.Common(), flockNew)
+					if fromFlockNew(o) {
+						return true
+					}
+					if ex, ok := o.(*ssa.Extract); ok && ex.Index == 0 {
+						if call, ok := ex.Tuple.(*ssa.Call); ok {
+							for _, h := range lockFns[1:] {
+								if call.Common().StaticCallee() == h && helperReturnsNew(h) {
+									return true
+								}
+							}
+						}
+					}
+					return false
 				}) {
 					stored = true
 				}
 			}
 		}
 	}
-	for _, r := range core.Returns(open) {
+	var lockReturns []*ssa.Return
+	for _, fn := range lockFns {
+		lockReturns = append(lockReturns, core.Returns(fn)...)
+	}
+	for _, r := range lockReturns {
 		v := core.ReturnOperand(r, 1)
 		if u, ok := v.(*ssa.UnOp); ok && u.Op == token.MUL {
 			if g, ok := u.X.(*ssa.Global); ok && g.Name() == "ErrDatabaseIsUsing" {
